@@ -2157,7 +2157,16 @@ ure_write_dfa(ure_dfa_t dfa, FILE *out)
   }
 }
 
-#define _ure_issep(cc) _ure_matches_properties(cc, _URE_SEPARATOR)
+/*
+ * A line or paragraph separator: `.' and negated character classes do not
+ * match it unless URE_DOT_MATCHES_SEPARATORS is given.  (Testing the
+ * separator property here had the arguments exchanged and the property is
+ * not implemented: `.' matched the row separator of the Teletext page text,
+ * and what else it matched depended on the bits of the character code and
+ * on the locale.)
+ */
+#define _ure_issep(cc) ((cc) == '\n' || (cc) == '\r' || (cc) == 0x2028 ||\
+                        (cc) == 0x2029)
 #define _ure_isbrk(cc) ((cc) == '\n' || (cc) == '\r' || (cc) == 0x2028 ||\
                         (cc) == 0x2029)
 
